@@ -141,17 +141,18 @@ func c08Scenarios(tier string) []*Scenario {
 				})
 				w.Join()
 				var other *rt.Thread
+				var errB error
 				if v.twoClosers {
 					other = rt.GoNamed("closer2", func() {
-						e := closer.Close()
+						errB = closer.Close()
 						rec.Mark("closeB-returned")
-						x.Vals["errB"] = e
 					})
 				}
 				x.Vals["err"] = closer.Close()
 				rec.Mark("close-returned")
 				if other != nil {
 					other.Join()
+					x.Vals["errB"] = errB
 				}
 				x.Vals["err2"] = closer.Close()
 				t := root.Tagged(map[string]string{"z": "1"})
